@@ -444,7 +444,7 @@ CLAIMS = {
          "resolution, typer elaboration, match compilation). Where a value does not reveal what types decide SrcSem answers "
          "`unsupported:<why>` and the check falls back to Core for that program (evidence: counts and reasons). Proved about SrcSem "
          "(Props/C01src.lean): struct patterns and struct literals are invariant under permutation of their written fields, initialisers "
-         "run in written order, environments are only passed down, lookup = the C05 resolver model's lookup. "
+         "run in written order, environments are only passed down, lookup = the C05 resolver model's lookup, a bare name with a local binder in scope means that binder whatever it is spelled like — also in call position and whichever way lower.rs tagged the node (src_local_binder_wins, src_local_callee_wins). NAME CATALOGUE (harness/src/namecat.rs; validated, not proved): a local binder of every kind spelled like a variant / struct / enum type / function / builtin, in 22 use positions, declared in the same or another file: each program must print its by-construction output, be accepted and print at every stage like its twin with a fresh binder name, and be lowered like the twin up to the name. "
          "PIPELINE COMPOSITION (Props/C01pipe.lean): the per-pass theorems are chained into one theorem about the composite middle-end model "
          "pipeline = anf . lift . mono (Model/Pipeline.lean; pass order re-extracted from pipeline.rs every run): pipeline_preserves - for every "
          "Core program in the decidable InPipeFragment, every definite Sem run of main (normal end or panic, with stdout and extern events) is "
